@@ -348,6 +348,17 @@ impl ParsedValue {
 
         let ident = ident.trim();
 
+        // braces around something that is not a variable name: this `{{` is text, like any other brace,
+        // it must not turn the variables before and after it into text too.
+        let name = ident.split_once(',').map_or(ident, |(name, _)| name.trim());
+        if Key::new(&format!("var_{}", name)).is_none() {
+            let before =
+                nested_result_try!(Self::new(before, key_path, locale, foreign_keys_paths));
+            let after = nested_result_try!(Self::new(rest, key_path, locale, foreign_keys_paths));
+            let braces = ParsedValue::Literal(Literal::String("{{".to_string(), usize::MAX));
+            return Some(Ok(ParsedValue::Bloc(vec![before, braces, after])));
+        }
+
         let before = nested_result_try!(Self::new(before, key_path, locale, foreign_keys_paths));
         let after = nested_result_try!(Self::new(after, key_path, locale, foreign_keys_paths));
 
